@@ -29,7 +29,7 @@ def grow(cur, mx):
 
 
 # ------------------------------------------------------------------ monitors over ONE trace (implementation or model)
-def monitor(cfg, events, trace, cap_index):
+def monitor(cfg, events, trace, cap_index, delays=None):
     """returns a list of (theorem, step index, message).  Only harness-side bookkeeping: which request is outstanding is
     derived from the requests the client saw and the replies the harness injected."""
     bad = []
@@ -47,6 +47,9 @@ def monitor(cfg, events, trace, cap_index):
     last_fetch = None         # (offset, max_bytes) of the last FetchRequest
     oor_expect = None         # after OffsetOutOfRange with a reset policy: the next request must be OffsetRequest(t)
     only_empty_since_fetch = True
+    att = 1                   # the consumer's attempt count as the property defines it: 1 + retries scheduled since the last success
+    success_at = []
+    clean_since_fetch = True  # no stop/start/shutdown since the last fetch request (a parked too-small reply may be dropped by them)
     for i, (ev, outs) in enumerate(zip(events, steps)):
         t = ev[0]
         ignored = outs[:1] == [(L.OUT_IGNORED,)]
@@ -55,10 +58,12 @@ def monitor(cfg, events, trace, cap_index):
         failure = (not ignored) and t == L.EV_REQ_FAIL and outstanding is not None
         accepted_start = t == L.EV_START and (L.OUT_RAISED, L.X_RESTART) not in outs
         kind_answered = outstanding
+        startd_before = startd
         if success or failure:
             outstanding = None
         if success:
-            consec, fails = 0, 0
+            consec, fails, att = 0, 0, 1
+            success_at.append(i)
         if accepted_start:
             fails, startd, oor_expect = 0, False, None
             only_empty_since_fetch = False
@@ -97,17 +102,26 @@ def monitor(cfg, events, trace, cap_index):
                     # growth: the buffer carried is the previous one, grown once per too-small reply handed over
                     exp = buf
                     g = 0
-                    while g < grow_pending and exp is not None and o[2] != exp:
-                        exp = grow(exp, cfg.maxbuf)
+                    while g < grow_pending and exp is not None and (o[2] != exp or clean_since_fetch):
+                        nxt = grow(exp, cfg.maxbuf)       # every too-small reply handed over grows the buffer exactly once
+                        if nxt is None:
+                            break
+                        exp = nxt
                         g += 1
                     if exp is None or o[2] != exp:
                         bad.append(("C14_growth_rule", i, "fetch carries max_bytes %d, expected %r after %d growth steps from %d" % (o[2], exp, g, buf)))
                     elif o[2] != buf and last_fetch is not None and only_empty_since_fetch and o[1] != last_fetch[0]:
                         bad.append(("C14_growth_step", i, "buffer grew but the fetch offset moved from %d to %d: message skipped" % (last_fetch[0], o[1])))
-                    buf, grow_pending, last_fetch, only_empty_since_fetch = o[2], 0, (o[1], o[2]), True
+                    buf, grow_pending, last_fetch, only_empty_since_fetch, clean_since_fetch = o[2], 0, (o[1], o[2]), True, True
             elif tag == L.OUT_CANCEL_REQ and o[1] != L.R_COMMIT:
                 cancelled = True
                 outstanding = None
+        # ---- the limit test itself (C14_limited): a failed request may end the consumer only when the attempts made reach the limit
+        if failure and cfg.maxatt > 0 and not shutting and att < cfg.maxatt and \
+                any(o[0] == L.OUT_START_D and o[1] == 0 and o[2] == ev[1] for o in outs) and \
+                not (ev[1] == L.FK_OOR and kind_answered == L.R_FETCH and cfg.reset == 0):
+            bad.append(("C14_limited", i, "start Deferred failed with the request failure after %d attempt(s), limit %d" % (att, cfg.maxatt)))
+        att += sum(1 for o in outs if o[0] == L.OUT_SCHED and o[1] == L.T_RETRY)
         # ---- back-off index: consecutive from the count since the last success, capped
         for k in sched_idx:
             if k != min(consec, cap_index):
@@ -136,12 +150,37 @@ def monitor(cfg, events, trace, cap_index):
             if ev[2] and not ev[1] and any(o[0] == L.OUT_START_D and o[1] == 0 and o[2] == L.FK_TOOSMALL for o in outs):
                 if grow(buf, cfg.maxbuf) is not None:
                     bad.append(("C14_growth_fails_iff_at_max", i, "failed with ConsumerFetchSizeTooSmall although buffer %d is below the maximum %d" % (buf, cfg.maxbuf)))
+            if ev[2] and not ev[1] and grow_pending == 1 and grow(buf, cfg.maxbuf) is None and startd_before is False and \
+                    any(o[0] == L.OUT_SCHED and o[1] == L.T_RETRY for o in outs):
+                bad.append(("C14_growth_fails_iff_at_max", i, "buffer %d is already the maximum, yet the consumer re-fetches instead of failing" % buf))
         if t in (L.EV_REQ_OK, L.EV_REQ_FAIL, L.EV_START):
             only_empty_since_fetch = False
+        if t in (L.EV_STOP, L.EV_START, L.EV_SHUTDOWN) or any(o[0] in (L.OUT_RET, L.OUT_RAISED) for o in outs):
+            clean_since_fetch = False
         if t == L.EV_STOP and any(o[0] == L.OUT_RET for o in outs):
             startd, outstanding, shutting, oor_expect = None, None, False, None
         if any(o[0] == L.OUT_SHUTDOWN_D and not (o[1] == 0 and o[2] == L.X_RESTOP) for o in outs):
             startd, outstanding, oor_expect = None, None, None
+    # ---- the delays themselves: within a run of failures they never decrease, never exceed the maximum, start at the initial one
+    if delays is not None:
+        init, mx = cfg.DELAYS[cfg.cap]
+        prev, prev_i = None, -1
+        for (step, kind, d) in delays:
+            i = step - 1
+            if kind != L.T_RETRY:
+                continue
+            if d == 0 or any(prev_i < j <= i for j in success_at):
+                prev = None              # a success in between: the sequence starts again
+            if d == 0:
+                continue
+            if init <= mx:
+                if d > mx:
+                    bad.append(("C14_delay_closed_form", i, "retry delay %r exceeds the maximum %r" % (d, mx)))
+                if prev is not None and d < prev:
+                    bad.append(("C14_delay_closed_form", i, "retry delay %r is smaller than the previous one %r in the same failure run" % (d, prev)))
+                if d < init:
+                    bad.append(("C14_delay_closed_form", i, "retry delay %r is below the initial delay %r" % (d, init)))
+            prev, prev_i = d, i
     return bad
 
 
@@ -244,7 +283,7 @@ def describe(c):
 
 def check_case(ck, cfg, events, drv, tag):
     """monitors on the implementation's own trace; returns the list of failures"""
-    bad = monitor(cfg, events, drv.trace, drv.cap_index())
+    bad = monitor(cfg, events, drv.trace, drv.cap_index(), drv.delays)
     for fb in drv.float_bad:
         bad.append(("C14_delay_closed_form", -1, "delay passed to callLater is not the recurrence value bit for bit: %r" % (fb,)))
     return bad
@@ -274,7 +313,7 @@ def shrink(cfg, events, pred):
 
 def fails_on_impl(cfg, events):
     drv = L.run_impl(cfg, events)
-    return bool(monitor(cfg, events, drv.trace, drv.cap_index()) or drv.float_bad)
+    return bool(monitor(cfg, events, drv.trace, drv.cap_index(), drv.delays) or drv.float_bad)
 
 
 def run(ck):
@@ -285,6 +324,17 @@ def run(ck):
     thorough = ck.tier == "thorough"
     scale = 12 if thorough else 1
     L.quiet()
+    # hypothesis of C14_delay_closed_form (1 <= F; DESIGN: F > 1) against the implementation's own constant
+    import afkak.consumer as AC
+    ck.cov["retry_factor"] = AC.REQUEST_RETRY_FACTOR
+    if not (AC.REQUEST_RETRY_FACTOR > 1):
+        cfg0 = L.Cfg(group=0, cap=7)
+        evs0 = [(L.EV_START, 0), (L.EV_REQ_FAIL, 1), (L.EV_FIRE_RETRY,), (L.EV_REQ_FAIL, 1), (L.EV_FIRE_RETRY,), (L.EV_REQ_FAIL, 1)]
+        d0 = L.run_impl(cfg0, evs0)
+        ck.violation({"kind": "REQUEST_RETRY_FACTOR is not greater than 1: the delays do not grow (hypothesis of C14_delay_closed_form false of the code)",
+                      "theorem": "C14_delay_closed_form", "factor": AC.REQUEST_RETRY_FACTOR,
+                      "delays_passed_to_callLater": [d for (_, k, d) in d0.delays if k == L.T_RETRY],
+                      "cfg": cfg0.line(), "events": [list(e) for e in evs0], "impl_trace": d0.trace, "replay_op": "case"})
 
     batches = []      # (label, [(cfg, events, drv)])
     corpus = []
@@ -334,7 +384,7 @@ def run(ck):
                 nviol_monitor += 1
                 small = shrink(cfg, evs, fails_on_impl) if nviol_monitor <= 3 else evs
                 d2 = L.run_impl(cfg, small)
-                b2 = monitor(cfg, small, d2.trace, d2.cap_index()) or bad
+                b2 = monitor(cfg, small, d2.trace, d2.cap_index(), d2.delays) or bad
                 report(ck, cfg, small, b2, d2.trace, label)
             mbad = monitor(cfg, evs, mo[idx], drv.cap_index())
             if mbad and not bad and idx not in diffs:
@@ -348,7 +398,7 @@ def run(ck):
                 for _ in range(40):
                     ext = list(evs) + [L.fill_event(rnd, drv, rnd.choice([L.EV_REQ_FAIL, L.EV_FIRE_RETRY, L.EV_REQ_OK, L.EV_FETCH_OK])) for _ in range(6)]
                     d2 = L.run_impl(cfg, ext)
-                    b2 = monitor(cfg, ext, d2.trace, d2.cap_index())
+                    b2 = monitor(cfg, ext, d2.trace, d2.cap_index(), d2.delays)
                     if b2 or d2.float_bad:
                         report(ck, cfg, shrink(cfg, ext, fails_on_impl), b2 or [("C14_delay_closed_form", -1, repr(d2.float_bad[:2]))], d2.trace, label + " (search around a correspondence difference)")
                         found = True
@@ -422,7 +472,7 @@ def replay(rp):
     steps, ends = L.split_steps(drv.trace)
     for ev, st, en in zip(events, steps, ends):
         print("%-18s %-22s -> %s   lp/lc=%s" % (L.EV_NAMES[ev[0]], list(ev[1:]), st, en))
-    bad = monitor(cfg, events, drv.trace, drv.cap_index())
+    bad = monitor(cfg, events, drv.trace, drv.cap_index(), drv.delays)
     print("float mismatches:", drv.float_bad)
     print("monitor verdict:", bad if bad else "passes")
     if rp.get("correspondence"):
